@@ -244,6 +244,7 @@ type ctorFacts struct {
 	fn        string
 	guard     string   // condition under which the janitor goroutine is started
 	captures  []string // variables of the constructor referenced inside the goroutine's function literal
+	tick      string   // what the goroutine does when the ticker fires
 	finTarget string   // first argument of runtime.SetFinalizer
 	finBody   string   // body of the finalizer
 	wrapper   string   // right-hand side of the definition of finTarget
@@ -293,6 +294,16 @@ func ctorFactsOf(repo, file, fn string) (*ctorFacts, error) {
 					if g, ok := st.(*ast.GoStmt); ok {
 						if fl, ok := g.Call.Fun.(*ast.FuncLit); ok {
 							cf.guard = exprString(fset, x.Cond)
+							ast.Inspect(fl.Body, func(m ast.Node) bool {
+								if cc, ok := m.(*ast.CommClause); ok && cc.Comm != nil && strings.Contains(exprString(fset, cc.Comm), "ticker.C") {
+									var parts []string
+									for _, st := range cc.Body {
+										parts = append(parts, exprString(fset, st))
+									}
+									cf.tick = strings.Join(parts, "; ")
+								}
+								return true
+							})
 							seen := map[string]bool{}
 							inner := map[string]bool{}
 							ast.Inspect(fl.Body, func(m ast.Node) bool {
@@ -309,6 +320,10 @@ func ctorFactsOf(repo, file, fn string) (*ctorFacts, error) {
 								}
 								return true
 							})
+						} else {
+							// the goroutine body is not a function literal any more
+							cf.guard = exprString(fset, x.Cond)
+							cf.tick = "<go " + exprString(fset, g.Call) + ">"
 						}
 					}
 				}
@@ -369,6 +384,7 @@ func main() {
 			fmt.Fprintf(&fb, "(* %s: func %s *)\n", c.file, c.fn)
 			fmt.Fprintf(&fb, "Definition janitor_guard_%s : string := %s.\n", c.tag, coqString(cf.guard))
 			fmt.Fprintf(&fb, "Definition janitor_captures_%s : list string := [%s].\n", c.tag, strings.Join(caps, "; "))
+			fmt.Fprintf(&fb, "Definition janitor_tick_%s : string := %s.\n", c.tag, coqString(cf.tick))
 			fmt.Fprintf(&fb, "Definition finalizer_target_%s : string := %s.\n", c.tag, coqString(cf.finTarget))
 			fmt.Fprintf(&fb, "Definition finalizer_target_def_%s : string := %s.\n", c.tag, coqString(cf.wrapper))
 			fmt.Fprintf(&fb, "Definition finalizer_body_%s : string := %s.\n\n", c.tag, coqString(cf.finBody))
